@@ -387,6 +387,75 @@ def x_rules(p: Project, rep: Report):
             elif cs2 is not None and it[0][0] is c.MIN_REPEAT:
                 ok, why = True, ""
     rep.check("X-R3", "regex:cdata-content", ok, why, r.where)
+    # ... every character INCLUDING a line break: the other spelling of the same data, the text group, is a class that
+    # excludes only '<' and therefore runs across lines.  `.` matches a newline only under re.DOTALL; a CDATA section
+    # whose content spans lines would otherwise match nothing, finditer() would skip it, and the element come out empty
+    import re as _re0
+
+    def _admits_newline(items_):
+        items_ = list(items_)
+        if len(items_) != 1:
+            return None
+        op_, av_ = items_[0]
+        if op_ is c.ANY:
+            st_ = getattr(getattr(r.tree, "state", None), "flags", 0) or 0
+            return bool((r.flags | st_) & _re0.DOTALL)
+        if op_ is c.IN:
+            cs_ = rx.charset(av_)
+            return None if cs_ is None else ("\n" in cs_)
+        if op_ is c.LITERAL:
+            return av_ == 10
+        if op_ is c.SUBPATTERN:
+            return _admits_newline(av_[-1])
+        if op_ is c.BRANCH:
+            rs_ = [_admits_newline(alt_) for alt_ in av_[1]]
+            return None if any(x_ is None for x_ in rs_) else any(rs_)
+        return None
+
+    if len(it) == 1 and it[0][0] in (c.MAX_REPEAT, c.MIN_REPEAT):
+        nl_ = _admits_newline(it[0][1][2])
+        if nl_ is None:
+            rep.note("X-R3 undecided: whether the CDATA content pattern matches a line break")
+        else:
+            rep.check("X-R3", "regex:cdata-content-spans-lines", nl_, "the CDATA content is matched by '.' without re.DOTALL (or by a class without '\\n'): a CDATA section whose data contains a line break - a multi-line memo or mail body, the very thing CDATA is used for - is not matched at all; finditer() skips it silently and the element is read as empty, while the same data written as plain text is kept" if not nl_ else "", r.where)
+    # ... and the section may be set off from its tags by whitespace: the sequence that holds the CDATA group begins
+    # and ends with an optional whitespace run.  Without it `<B> <![CDATA[x]]></B>` matches the blank as text, the
+    # section matches nothing, finditer() skips it, and the element is read as empty
+    def _seq_with_group(seq, gid):
+        seq = list(seq)
+        for op_, av_ in seq:
+            if op_ is c.SUBPATTERN and av_[0] == gid:
+                return seq
+        for op_, av_ in seq:
+            subs = []
+            if op_ is c.SUBPATTERN:
+                subs = [av_[-1]]
+            elif op_ is c.BRANCH:
+                subs = list(av_[1])
+            elif op_ in (c.MAX_REPEAT, c.MIN_REPEAT):
+                subs = [av_[2]]
+            for sub_ in subs:
+                got = _seq_with_group(sub_, gid)
+                if got is not None:
+                    return got
+        return None
+
+    def _opt_space(item):
+        op_, av_ = item
+        if op_ not in (c.MAX_REPEAT, c.MIN_REPEAT) or av_[0] != 0:
+            return False
+        inner_ = list(av_[2])
+        if len(inner_) != 1 or inner_[0][0] is not c.IN:
+            return False
+        cs_ = rx.charset(inner_[0][1])
+        return cs_ is not None and {" ", "\n", "\t", "\r"} <= cs_ and "<" not in cs_
+
+    seq_ = _seq_with_group(r.tree, r.groups["cdata"])
+    if seq_ is None:
+        rep.note("X-R3 undecided: the sequence holding the CDATA group was not found")
+    else:
+        lead, trail = _opt_space(seq_[0]), _opt_space(seq_[-1])
+        rep.check("X-R3", "regex:cdata-set-off-by-whitespace", lead and trail, f"the CDATA section must {'directly follow its start tag' if not lead else 'be directly followed by the end tag'}: with whitespace in between, the blank is taken for the element's text and the section is matched by nothing - finditer() skips it silently and the element is read as empty (or its end tag is refused)" if not (lead and trail) else "", r.where)
     # literal terminator follows
     prev = _following_literals(r.tree, r.groups["cdata"])
     rep.check("X-R3", "regex:cdata-terminator", prev == "]]>", f"CDATA content is followed by {prev!r}, not ']]>'" if prev != "]]>" else "", r.where)
